@@ -1,7 +1,7 @@
 // pubsub: C19 driver. Real connections to Manager.Handle (net.Pipe) or to a real server (TCP): subscribers join and
 // leave while publishers send numbered messages with CR LF inside; every SUBSCRIBE / PUBLISH / close is recorded with
 // a global ticket before the call and after the return, every push read by a subscriber's reader goroutine is recorded
-// when it is read; the history is written for TracePubSub.tla. A publisher that does not return within 3 s and a dead
+// when it is read; the history is written for TracePubSub.tla. A publisher that does not return within 30 s and a dead
 // process are reported here.
 package main
 
@@ -112,7 +112,7 @@ func main() {
 			var c net.Conn
 			if *addr != "" {
 				var err error
-				c, err = net.DialTimeout("tcp", *addr, 3*time.Second)
+				c, err = net.DialTimeout("tcp", *addr, 30*time.Second)
 				if err != nil {
 					fmt.Fprintln(os.Stderr, "dial:", err)
 					os.Exit(2)
@@ -183,6 +183,7 @@ func main() {
 			go reader(pubs[i])
 		}
 		var opID int32
+	var lastActivity int64
 		// SUBSCRIBE a b subscribes channel by channel (one confirmation each), so it is recorded as one operation per
 		// channel, all spanning the same interval
 		doSub := func(cl *client, chs []int) {
@@ -193,14 +194,14 @@ func main() {
 				es = append(es, event{Ev: "inv", ID: int(atomic.AddInt32(&opID, 1)), Kind: "sub", C: cl.id, Chs: []int{c}})
 			}
 			t0 := tick()
-			cl.conn.SetWriteDeadline(time.Now().Add(3 * time.Second))
+			cl.conn.SetWriteDeadline(time.Now().Add(30 * time.Second))
 			_, err := cl.conn.Write(respcodec.EncodeCommand(argv))
 			ok := false
 			if err == nil {
 				select {
 				case <-cl.subAck:
 					ok = true
-				case <-time.After(3 * time.Second):
+				case <-time.After(30 * time.Second):
 				}
 			}
 			for i := range es {
@@ -222,7 +223,7 @@ func main() {
 			id := int(atomic.AddInt32(&opID, 1))
 			e := event{Ev: "inv", ID: id, Kind: "pub", C: cl.id, Ch: ch, Msg: msg, Chs: []int{}}
 			e.T = tick()
-			cl.conn.SetWriteDeadline(time.Now().Add(3 * time.Second))
+			cl.conn.SetWriteDeadline(time.Now().Add(30 * time.Second))
 			_, err := cl.conn.Write(respcodec.EncodeCommand([][]byte{[]byte("PUBLISH"), []byte(chName(chBase + ch)), []byte(msgBody(msg))}))
 			ok := false
 			if err == nil {
@@ -230,7 +231,7 @@ func main() {
 				case n := <-cl.intAck:
 					e.N = int(n)
 					ok = true
-				case <-time.After(3 * time.Second):
+				case <-time.After(30 * time.Second):
 				}
 			}
 			e.Answered = ok
@@ -239,7 +240,7 @@ func main() {
 				log(event{T: tick(), Ev: "res", ID: id, Chs: []int{}})
 			} else {
 				anomalies++
-				aenc.Encode(anomaly{"publisher-blocked", h, fmt.Sprintf("PUBLISH chan-%d m%d did not return within 3 s", ch, msg)})
+				aenc.Encode(anomaly{"publisher-blocked", h, fmt.Sprintf("PUBLISH chan-%d m%d did not return within 30 s", ch, msg)})
 			}
 		}
 		doClose := func(cl *client) {
@@ -315,7 +316,23 @@ func main() {
 			}
 			wg.Wait()
 		}
-		time.Sleep(60 * time.Millisecond) // drain
+		// drain: every PUBLISH has returned; wait until the readers have been idle for a while. The idle time demanded grows
+	// with the scheduling delay observed here (a loaded machine must not turn a late log entry into a lost message).
+	{
+		t0 := time.Now()
+		need := 60 * time.Millisecond
+		for {
+			s0 := time.Now()
+			time.Sleep(10 * time.Millisecond)
+			if over := time.Since(s0) - 10*time.Millisecond; 10*over > need {
+				need = 10 * over
+			}
+			idle := time.Since(time.Unix(0, atomic.LoadInt64(&lastActivity)))
+			if (time.Since(t0) >= need && idle >= need) || time.Since(t0) > 5*time.Second {
+				break
+			}
+		}
+	}
 		log(event{T: tick(), Ev: "quiet", Chs: []int{}})
 		for _, c := range append(subs, pubs...) {
 			c.conn.Close()
